@@ -236,59 +236,7 @@ Definition stable_case_ok (k : ty * val) : bool :=
   | None => false
   end.
 
-(* file case: the file the real marshaler wrote for an item name (router = false: cluster manager, true: router) *)
-Inductive rt_case := EncCase (k : enc_case) | DecCase (k : dec_case) | DecHCase (k : dec_case) | StableCase (k : ty * val)
-                   | FileCase (router : bool) (name fname : string).
 
-
-
-(* ------------------------------------------------------------------------------ path-mode file naming *)
-(* ClusterManagerConfig.MarshalJSON / RouterConfiguration.MarshalJSON keep every cluster / virtual host of a
-   container in path (directory) mode in a file named after it; the loader reads the files whose extension is
-   ".json".  Strings are byte strings (Go slices bytes).  The ORDER of the three operations is read from the source. *)
-Definition sep_char : Ascii.ascii := "/"%char.
-Fixpoint replace_sep (s : string) : string :=
-  match s with
-  | EmptyString => EmptyString
-  | String c s' => String (if Ascii.eqb c sep_char then "_"%char else c) (replace_sep s')
-  end.
-Fixpoint firstn_str (n : nat) (s : string) : string :=
-  match n, s with
-  | S n', String c s' => String c (firstn_str n' s')
-  | _, _ => EmptyString
-  end.
-Definition apply_fop (max : nat) (s : string) (o : fop) : string :=
-  match o with
-  | FTrunc => firstn_str max s
-  | FReplaceSep => replace_sep s
-  | FAppendJson => s ++ ".json"
-  end.
-Definition file_name (max : nat) (ops : list fop) (name : string) : string := fold_left (apply_fop max) ops name.
-Definition canon_ops : list fop := [FTrunc; FReplaceSep; FAppendJson].
-
-(* path.Ext(file) == ".json" : the name ends in ".json" *)
-Definition loader_accepts (fname : string) : bool :=
-  String.eqb (substring (String.length fname - 5) 5 fname) ".json".
-
-Fixpoint has_sep (s : string) : bool :=
-  match s with EmptyString => false | String c s' => (Ascii.eqb c sep_char || has_sep s')%bool end.
-
-Definition repeat_char (c : Ascii.ascii) (n : nat) : string :=
-  (fix go (n : nat) : string := match n with O => EmptyString | S n' => String c (go n') end) n.
-
-Definition rt_case_ok (k : rt_case) : bool :=
-  match k with
-  | EncCase e => enc_case_ok e | DecCase d => dec_case_ok d | DecHCase d => dech_case_ok d | StableCase s => stable_case_ok s
-  | FileCase router name fname =>
-    String.eqb (file_name src_max_file_path (if router then src_fname_ops_router else src_fname_ops_cluster) name) fname
-  end.
-
-Fixpoint mismatches_from {A} (ok : A -> bool) (i : nat) (l : list A) : list nat :=
-  match l with
-  | [] => []
-  | x :: l' => if ok x then mismatches_from ok (S i) l' else i :: mismatches_from ok (S i) l'
-  end.
-Definition c19_mismatches (l : list rt_case) : list nat := mismatches_from rt_case_ok 0 l.
 
 (* ================================================================================================ *)
 (* Well-formed values of the WHOLE graph (hooked structs included) and the table conditions for the  *)
@@ -513,3 +461,90 @@ Definition meta_rt (T : table) : Prop :=
       fuel_free (encode T fuel t (call_marshal_fn "metadataToConfig" (VRef r (e :: es)))) = true ->
       decode T fuel' t (encode T fuel t (call_marshal_fn "metadataToConfig" (VRef r (e :: es)))) = Some x ->
       x = call_marshal_fn "metadataToConfig" (VRef r (e :: es)).
+
+(* ------------------------------------------------------------------------------------ an example document *)
+(* a configuration exercising the Listener, FilterChain (single tls_context), ClusterManagerConfig, RouterConfiguration
+   (inline), Router, RouteAction (metadata + duration), HealthCheck (durations), Host (metadata) and CircuitBreakers hooks *)
+Definition w_doc : json :=
+  JObj [("servers", JArr [JObj [
+          ("mosn_server_name", JStr "s1");
+          ("listeners", JArr [JObj [
+             ("name", JStr "ingress"); ("address", JStr "127.0.0.1:2045"); ("bind_port", JBool true);
+             ("filter_chains", JArr [JObj [
+                ("tls_context", JObj [("status", JBool true); ("cert_chain", JStr "CERT"); ("private_key", JStr "KEY")]);
+                ("filters", JArr [JObj [("type", JStr "proxy"); ("config", JObj [("downstream_protocol", JStr "Http1"); ("n", JNum "3")])]])]])]]);
+          ("routers", JArr [JObj [
+             ("router_config_name", JStr "r1");
+             ("virtual_hosts", JArr [JObj [
+                ("name", JStr "vh1"); ("domains", JArr [JStr "*"]);
+                ("routers", JArr [JObj [
+                   ("match", JObj [("prefix", JStr "/")]);
+                   ("route", JObj [("cluster_name", JStr "c1");
+                                   ("metadata_match", JObj [("filter_metadata", JObj [("mosn.lb", JObj [("zone", JStr "a")])])]);
+                                   ("timeout", JStr "1.5s")])]])]])]])]]);
+        ("cluster_manager", JObj [
+           ("clusters", JArr [JObj [
+              ("name", JStr "c1"); ("type", JStr "SIMPLE"); ("lb_type", JStr "LB_RANDOM");
+              ("circuit_breakers", JArr [JObj [("max_connections", JNum "5")]]);
+              ("health_check", JObj [("protocol", JStr "http1"); ("timeout", JStr "1s"); ("interval", JStr "2m0s")]);
+              ("hosts", JArr [JObj [("address", JStr "127.0.0.1:8080"); ("weight", JNum "2");
+                                    ("metadata", JObj [("filter_metadata", JObj [("mosn.lb", JObj [("zone", JStr "a")])])])]])]])])].
+Definition w_cfg : val :=
+  match decode cfg_structs 64 (TNamed "v2.MOSNConfig") w_doc with Some v => v | None => VNil end.
+
+(* ----------------------------------------------------------------------------- correspondence cases *)
+(* file case: the file the real marshaler wrote for an item name (router = false: cluster manager, true: router) *)
+Inductive rt_case := EncCase (k : enc_case) | DecCase (k : dec_case) | DecHCase (k : dec_case) | StableCase (k : ty * val)
+                   | FileCase (router : bool) (name fname : string)
+                   | WfCase (k : ty * val).        (* a real loaded value satisfies the premise of c19_roundtrip_full *)
+
+
+
+(* ------------------------------------------------------------------------------ path-mode file naming *)
+(* ClusterManagerConfig.MarshalJSON / RouterConfiguration.MarshalJSON keep every cluster / virtual host of a
+   container in path (directory) mode in a file named after it; the loader reads the files whose extension is
+   ".json".  Strings are byte strings (Go slices bytes).  The ORDER of the three operations is read from the source. *)
+Definition sep_char : Ascii.ascii := "/"%char.
+Fixpoint replace_sep (s : string) : string :=
+  match s with
+  | EmptyString => EmptyString
+  | String c s' => String (if Ascii.eqb c sep_char then "_"%char else c) (replace_sep s')
+  end.
+Fixpoint firstn_str (n : nat) (s : string) : string :=
+  match n, s with
+  | S n', String c s' => String c (firstn_str n' s')
+  | _, _ => EmptyString
+  end.
+Definition apply_fop (max : nat) (s : string) (o : fop) : string :=
+  match o with
+  | FTrunc => firstn_str max s
+  | FReplaceSep => replace_sep s
+  | FAppendJson => s ++ ".json"
+  end.
+Definition file_name (max : nat) (ops : list fop) (name : string) : string := fold_left (apply_fop max) ops name.
+Definition canon_ops : list fop := [FTrunc; FReplaceSep; FAppendJson].
+
+(* path.Ext(file) == ".json" : the name ends in ".json" *)
+Definition loader_accepts (fname : string) : bool :=
+  String.eqb (substring (String.length fname - 5) 5 fname) ".json".
+
+Fixpoint has_sep (s : string) : bool :=
+  match s with EmptyString => false | String c s' => (Ascii.eqb c sep_char || has_sep s')%bool end.
+
+Definition repeat_char (c : Ascii.ascii) (n : nat) : string :=
+  (fix go (n : nat) : string := match n with O => EmptyString | S n' => String c (go n') end) n.
+
+Definition rt_case_ok (k : rt_case) : bool :=
+  match k with
+  | EncCase e => enc_case_ok e | DecCase d => dec_case_ok d | DecHCase d => dech_case_ok d | StableCase s => stable_case_ok s
+  | WfCase (t, v) => (wfb cfg_structs 64 t v && ty_ok cfg_structs t)%bool
+  | FileCase router name fname =>
+    String.eqb (file_name src_max_file_path (if router then src_fname_ops_router else src_fname_ops_cluster) name) fname
+  end.
+
+Fixpoint mismatches_from {A} (ok : A -> bool) (i : nat) (l : list A) : list nat :=
+  match l with
+  | [] => []
+  | x :: l' => if ok x then mismatches_from ok (S i) l' else i :: mismatches_from ok (S i) l'
+  end.
+Definition c19_mismatches (l : list rt_case) : list nat := mismatches_from rt_case_ok 0 l.
